@@ -366,6 +366,19 @@ def rule_sketch_structure(ctx):
                     r.violate(reset.nid, 'aging-size-formula', 'size', 'the aging step updates the sample counter as `%s`: only `(size - (odd_count >> 2)) >> 1` keeps size >= sum(counters)/4, '
                               'which is what rules out the underflow' % fmt(v)[:120], where=ctx.where(reset.nid, e[3]), expected='self.size = (self.size - (count >> 2)) >> 1')
     r.instance(function=reset.nid, size_update='(size - (count >> 2)) >> 1', found=bool(size_ok))
+    # every visited slot is rewritten (no `continue` that skips the halving for some slots)
+    for p in ctx.symex(inline_depth=1, loop_visits=2).run(reset.nid):
+        if p.diverged:
+            continue
+        visited = sum(1 for c, v in p.conds if isinstance(c, tuple) and c[0] == 'discr' and v == 1 and any(
+            isinstance(x, tuple) and x and x[0] == 'call' and str(x[1]).endswith('::next') for x in subterms(c)))
+        if any(e[0] == 'call' and str(e[1]).endswith('::for_each') for e in p.events):
+            visited = sum(1 for e in p.events if e[0] == 'write' and isinstance(e[1], tuple) and e[1][0] == 'elem') or visited
+        writes = sum(1 for e in p.events if e[0] == 'write' and isinstance(e[2], tuple) and e[2][0] == 'bin' and e[2][1] == 'BitAnd')
+        if visited != writes and visited:
+            r.violate(reset.nid, 'aging-skips-slots', '%d/%d' % (writes, visited), 'a path of the aging step visits %d slot(s) but halves %d: some estimates are not aged' % (visited, writes),
+                      where=ctx.where(reset.nid), path=[fmt(c)[:60] + ' == ' + str(v) for c, v in p.conds][:6])
+            break
     r.instance(function=reset.nid, slot_rewritten_as='(slot >> 1) & RESET_MASK', found=halved)
     if not halved:
         r.violate(reset.nid, 'aging-not-halving', 'slot', 'the aging step does not rewrite each slot as (slot >> 1) & RESET_MASK', where=ctx.where(reset.nid))
